@@ -21,6 +21,7 @@ from vlib import core, loader, tlc
 from vlib.env import Env
 
 ERRLINE = "let q%da: i32 = ; let q%db: i32 = ;"
+OPEN_BLOCKS = 40
 
 
 def render(case, d, with_types=False):
@@ -31,6 +32,9 @@ def render(case, d, with_types=False):
             with open(os.path.join(root, loader.short(m) + ".fer"), "a") as f:
                 for i in range(k):
                     f.write(ERRLINE % (i, i) + "\n")
+                # ... and a tail of blocks left open: the parser reports the missing brace once per open block, all at
+                # the end of the file, i.e. a run of identical diagnostics added back to back while other modules parse
+                f.write("fn zz%d() {\n" % k + "    if true {\n" * OPEN_BLOCKS)
     return entry
 
 
@@ -202,11 +206,11 @@ def run(tier, seed, replay=None):
         "design_nondeterministic_projects_sampled": design_nd,
         "design_divergences_reproduced_on_binary": pairs_diff,
         "evaluations": len(traces), "distinct_nontrivial": len({project_key(c) for c, _ in results}),
-        "rule": "TLC -simulate draws projects (<=4 modules, 0-1 function literals and 0/4 erroneous lines per "
-                "module) with 3 random schedules each; distinct = distinct projects; each run is compared with the "
+        "rule": "TLC -simulate draws projects (<=4 modules, 0-1 function literals and 0/4 erroneous lines plus a tail of 40 "
+                "unclosed blocks (identical end-of-file diagnostics) per module) with 3 random schedules each; distinct = distinct projects; each run is compared with the "
                 "runs the specification maps to the same Output",
     })
-    chk.assumptions += ["the diagnostic count per erroneous source line is abstracted (>=2 same-line diagnostics)",
+    chk.assumptions += ["the diagnostic count per erroneous source line / per unclosed block is abstracted (>=2 same-line diagnostics; identical diagnostics at the end of the file)",
                         "runs of one project happen in the same directory so paths in diagnostics are equal"]
     return chk.finish()
 
